@@ -111,6 +111,7 @@ type State struct {
 	mu        *Term    // unused
 	ghostI    map[*ssa.BasicBlock]*Term
 	lastCall  map[string][]Value // bare callee name -> results of its most recent call on this path (lasterr)
+	lastArgs  map[string][]Value // same for the arguments (receiver first)
 	trace     []string
 	dead      bool
 }
@@ -162,6 +163,12 @@ func (s *State) clone() *State {
 		n.lastCall = make(map[string][]Value, len(s.lastCall))
 		for k, v := range s.lastCall {
 			n.lastCall[k] = v
+		}
+	}
+	if s.lastArgs != nil {
+		n.lastArgs = make(map[string][]Value, len(s.lastArgs))
+		for k, v := range s.lastArgs {
+			n.lastArgs[k] = v
 		}
 	}
 	return n
